@@ -27,6 +27,10 @@ pub fn build(tier: Tier) -> Check<'static> {
         c.parts.push(Part::new("macro-shapes", sp.len(), "macro shapes (comments inside bodies)", move |i, acc| pp::check_prog(acc, &sp.get(i), or, "macro shapes")));
     }
     {
+        let sp = pp::directive_body_profile();
+        c.parts.push(Part::new("directive-bodies", sp.len(), "macros whose text holds directives", move |i, acc| pp::check_prog(acc, &sp.get(i), or, "directive bodies")));
+    }
+    {
         let alpha: [&'static str; 13] = ["\" s\"", "a", ";", " ", "\n", "/*c*/", "//c\n", "`define A 1 // d\n", "`define F(x) x /*d*/\n", "`A", "`F/*c*/(1)", "`ifdef A/*c*/\n", "`endif//c\n"];
         let sp = soup::strings(&alpha, 0, tier.pick(4, 5), &[""]);
         c.parts.push(Part::new("comment-soup", sp.len(), "all sequences of the 12 pieces", move |i, acc| {
